@@ -32,6 +32,7 @@ import re
 import signal
 
 from . import common, tlc, project, cliargs
+from .exc import exc_name
 
 WD = None
 LOG = []          # (modifier name, graph it received) of the call in progress
@@ -209,7 +210,7 @@ def finish_record(rec, job, path, G):
                     S = readGraph(path, job["gtype"], fmt)
                 rec["saved"] = {"outcome": "ok", "graph": project.graph(S)}
             except Exception as e:
-                rec["saved"] = {"outcome": type(e).__name__}
+                rec["saved"] = {"outcome": exc_name(e)}
     return rec
 
 
@@ -252,7 +253,7 @@ def run_lib(job):
     except _Timeout:
         rec["outcome"] = "Timeout"
     except Exception as e:
-        rec["outcome"] = type(e).__name__
+        rec["outcome"] = exc_name(e)
         rec["msg"] = str(e)[:120].replace("\n", " ")
     finally:
         signal.alarm(0)
@@ -287,7 +288,7 @@ def run_cli(job):
     except SystemExit:
         rec["outcome"] = "SystemExit"
     except Exception as e:
-        rec["outcome"] = type(e).__name__
+        rec["outcome"] = exc_name(e)
         rec["msg"] = str(e)[:120].replace("\n", " ")
     if rec["outcome"] == "ok":
         if len(RET) != 1:
@@ -339,7 +340,7 @@ def run_libcall(job):
     except _Timeout:
         rec["outcome"] = "Timeout"
     except Exception as e:
-        rec["outcome"] = type(e).__name__
+        rec["outcome"] = exc_name(e)
         rec["msg"] = str(e)[:120].replace("\n", " ")
     finally:
         signal.alarm(0)
